@@ -90,7 +90,12 @@ func init() {
 		var body []byte
 		fail := false
 		net := &rig.Targets{}
+		var inflight func()
 		net.Serve = func(req *http.Request) rig.Answer {
+			if f := inflight; f != nil {
+				inflight = nil
+				f()
+			}
 			if fail {
 				return rig.Answer{Status: 500}
 			}
@@ -234,6 +239,8 @@ func init() {
 			}
 		}
 		alpha = append(alpha, ev{Kind: "u", U: 0}, ev{Kind: "u", U: 1}, ev{Kind: "u", U: 2})
+		// a targets update arriving while a scrape is in flight ("sd")
+		alpha = append(alpha, ev{Kind: "sd", H: 1, N: 5, U: 0}, ev{Kind: "sd", H: 2, N: 5, U: 0}, ev{Kind: "sd", H: 2, N: 2, U: 1})
 		maxEv := 4
 		if c.Thorough() {
 			maxEv = 5
@@ -276,7 +283,73 @@ func init() {
 					}
 				}
 			}
+			realUpd := func(u int) {
+				ts := map[string][]*target.Target{}
+				if u == 0 || u == 1 {
+					ts["jr0"] = append(ts["jr0"], c14Target(1, est[1]))
+				}
+				if u == 0 {
+					ts["jr0"] = append(ts["jr0"], c14Target(2, est[2]))
+				}
+				if err := sc.Update(ts); err != nil {
+					chk.Fatalf("%v", err)
+				}
+			}
+			modelUpd := func(m map[uint64]*ment, u int) {
+				keep := map[uint64]bool{}
+				if u == 0 || u == 1 {
+					keep[1] = true
+				}
+				if u == 0 {
+					keep[2] = true
+				}
+				for h := range keep {
+					if m[h] == nil {
+						m[h] = &ment{series: est[h][0], total: est[h][1]}
+					}
+				}
+				for h := range m {
+					if !keep[h] {
+						delete(m, h)
+					}
+				}
+			}
+			modelScr := func(mm map[uint64]*ment, h uint64, n int) {
+				if m := mm[h]; m != nil && n >= 0 {
+					m.win = append(m.win, int64(n))
+					if len(m.win) > 3 {
+						m.win = m.win[len(m.win)-3:]
+					}
+					s := int64(0)
+					for _, v := range m.win {
+						s += v
+					}
+					m.series, m.total = s/int64(len(m.win)), int64(n)
+				}
+			}
+			cloneM := func(mm map[uint64]*ment) map[uint64]*ment {
+				out := map[uint64]*ment{}
+				for h, m := range mm {
+					c := *m
+					c.win = append([]int64{}, m.win...)
+					out[h] = &c
+				}
+				return out
+			}
+			agrees := func(mm map[uint64]*ment) bool {
+				st, err := sc.Status()
+				if err != nil || len(st) != len(mm) {
+					return false
+				}
+				for h, m := range mm {
+					if e := st[h]; e == nil || e.Series != m.series || e.TotalSeries != m.total {
+						return false
+					}
+				}
+				return true
+			}
 			upd(0)
+			inflightBad := ""
 			for _, e := range evs {
 				if e.Kind == "u" {
 					upd(e.U)
@@ -286,18 +359,35 @@ func init() {
 				if !fail {
 					body = rig.Payload(e.N)
 				}
-				sc.Scrape(rig.ProxyURL("jr0", e.H, "http", "t:80", "/metrics", nil))
-				if m := model[e.H]; m != nil && !fail {
-					m.win = append(m.win, int64(e.N))
-					if len(m.win) > 3 {
-						m.win = m.win[len(m.win)-3:]
+				if e.Kind == "sd" {
+					u := e.U
+					inflight = func() { realUpd(u) }
+					sc.Scrape(rig.ProxyURL("jr0", e.H, "http", "t:80", "/metrics", nil))
+					inflight = nil
+					m1, m2 := cloneM(model), cloneM(model)
+					modelUpd(m1, e.U)
+					modelScr(m1, e.H, e.N)
+					modelScr(m2, e.H, e.N)
+					modelUpd(m2, e.U)
+					switch {
+					case agrees(m1):
+						model = m1
+					case agrees(m2):
+						model = m2
+					default:
+						model = m1
+						if inflightBad == "" {
+							inflightBad = fmt.Sprintf("after scrape(%d, %d samples) with update(%d) arriving in flight, the status matches neither update-then-scrape nor scrape-then-update", e.H, e.N, e.U)
+						}
 					}
-					s := int64(0)
-					for _, v := range m.win {
-						s += v
-					}
-					m.series, m.total = s/int64(len(m.win)), int64(e.N)
+					continue
 				}
+				sc.Scrape(rig.ProxyURL("jr0", e.H, "http", "t:80", "/metrics", nil))
+				modelScr(model, e.H, e.N)
+			}
+			if inflightBad != "" {
+				viol("C14:in-flight-update-loses-scrape", "sliding-mean", inflightBad, map[string]interface{}{"events": append([]ev{}, evs...)})
+				return
 			}
 			r.States++
 			r.Transitions += int64(len(evs) + 1)
